@@ -46,6 +46,40 @@ pub fn run(rep: &mut Report, thorough: bool) {
                 }
             });
         }
+        // requests carrying IPv4 options (IHL 6..15): replies never carry them, every length field
+        // must describe the reply actually emitted
+        sweep_frames(rep, &cfg, &format!("ip4-options-{}", tag), "IHL 6..15 (NOP options) x {echo with 0..40 data bytes, TCP SYN, UDP STUN}", 10 * 43, |i| {
+            let d = unrank(i, &[10, 43]);
+            let ihl = 6 + d[0] as u8;
+            let opts = vec![1u8; (ihl as usize - 5) * 4];
+            let f = flow4(40000, 3478);
+            let (c4, s4) = match (f.cip, f.sip) {
+                (Ip::V4(a), Ip::V4(b)) => (a, b),
+                _ => unreachable!(),
+            };
+            let (proto, l4) = if d[1] < 41 {
+                let mut rest = vec![0x12, 0x34, 0, 1];
+                rest.extend((0..d[1]).map(|k| k as u8));
+                (P_ICMP, icmp4(8, 0, &rest))
+            } else if d[1] == 41 {
+                (P_TCP, TcpSeg::new(40000, 80, 7, 0, F_SYN, b"").bytes(&f.cip, &f.sip))
+            } else {
+                (P_UDP, udp(&f.cip, &f.sip, 40000, 3478, &stun_magic(&[], &ID12)))
+            };
+            eth(&MAC_SRV, &MAC_CLI, ET_IP4, &ipv4_raw(c4, s4, proto, &l4, ihl, None, &opts, 64, 0x4000, 7))
+        });
+        // echo data of every length 0..2100 and a few jumbo sizes: the reply carries all of it
+        sweep_frames(rep, &cfg, &format!("echo-lengths-{}", tag), "echo data length 0..2100, 4000, 9000, 20000 x {v4,v6}", 2104 * 2, |i| {
+            let k = i / 2;
+            let n = match k {
+                2101 => 4000,
+                2102 => 9000,
+                2103 => 20000,
+                k => k as usize,
+            };
+            let data: Vec<u8> = (0..n).map(|x| (x * 7) as u8).collect();
+            flow(i % 2 == 1, 1, 1).icmp_echo(0x1234, 1, &data)
+        });
         // ICMP echo: identifier sweep both versions (checksum of the reply takes every value)
         sweep_frames(rep, &cfg, &format!("echo-id-{}", tag), "echo identifier 0..65535 x {v4,v6}", 65536 * 2, |i| flow(i >= 65536, 1, 1).icmp_echo(i as u16, 1, b"x"));
         // echo with odd/even lengths 0..1472
